@@ -314,7 +314,10 @@ def gen_constraints(rng, d, prof):
             if s['p'] and rng.random() < 0.4:
                 rhs = ('*', rhs, rng.choice(s['p']))
             rel = rng.choice(['le', 'eq', 'ge'])
-            cons.append({'rel': rel, 'a': [lhs], 'b': [rhs], 'grid': 'point'})
+            con = {'rel': rel, 'a': [lhs], 'b': [rhs], 'grid': 'point'}
+            if rng.random() < prof.get('scale_prob', 0.0):
+                con['scale'] = [rng.choice([2, 4, 0.5, 8])]
+            cons.append(con)
             continue
         nrows = rng.choice(prof.get('nrows', [1, 1, 1, 2]))
         rel = rng.choice(['le', 'le', 'ge', 'eq', 'two'])
@@ -331,6 +334,10 @@ def gen_constraints(rng, d, prof):
             if use_off:
                 o = rng.choice(prof.get('offsets', [1, -1, 2, -2]))
                 oe = poly(rng, s['x'] + s['u'] + s['pc'] + s['pcp'] + s['vc'] + s['vcp'] + [('t',)], (1, 2), 2, must=s['x'] + s['u'] + s['vc'] + s['vcp'])
+                if prof.get('offset_force_pcp') and s['pcp']:
+                    # an include_last per-interval parameter inside the shifted operand: the instance that lands on the final node
+                    # must read the parameter's extra column
+                    oe = ('+', oe, ('*', E.C(coef(rng)), ('*', rng.choice(s['pcp']), rng.choice(s['x']))))
                 offs.append((oe, o))
                 body = ('+', body, ('*', E.C(coef(rng)), ('off', len(offs) - 1)))
             bound = E.C(coef(rng))
